@@ -3704,8 +3704,12 @@ static Value eval_expression(ASTNode *expr, Environment *env) {
         case AST_FLOAT:
             return create_float(expr->as.float_val);
 
-        case AST_STRING:
-            return create_string(expr->as.string_val);
+        case AST_STRING: {
+            char *text = nl_string_literal_value(expr->as.string_val);
+            Value v = create_string(text ? text : "");
+            free(text);
+            return v;
+        }
 
         case AST_BOOL:
             return create_bool(expr->as.bool_val);
